@@ -983,3 +983,115 @@ def dead_store(ctx, repo, scope=("",), rule="DEAD-STORE", _self=False):
 
 NEW3 = [dead_store]
 GENERIC.extend(NEW3)
+
+
+# ---------------------------------------------------------------------------
+# TAG-LIT: string literals used as TTFont keys are table tags
+# ---------------------------------------------------------------------------
+_POSITIVE["TAG-LIT"] = '''
+def fromXML(self, name, attrs, content, ttFont):
+    hasGlyphNamedNone = "None" in ttFont
+    cmap = ttFont["cmap"]
+'''
+# literal keys that are deliberately not a table module's tag
+TAG_LIT_AUDIT = {}
+_TTFONT_NAMES = {"ttFont", "ttfont", "varfont", "varFont", "otFont", "self.ttFont", "ttf"}
+
+
+def tag_literals(ctx, repo, scope=("",), rule="TAG-LIT", _self=False):
+    ctx.rule(rule, "a string literal used as a key of a TTFont (`'xxxx' in ttFont`, `ttFont['xxxx']`, `ttFont.get('xxxx')`) is a table tag: at most four characters, or the pseudo-table 'GlyphOrder'; TTFont membership tests table tags, not glyph names, so any other literal is a test against the wrong collection that is silently always false", floor=1)
+    if not _self:
+        _selfcheck(ctx, rule, tag_literals)
+    known = set()
+    if not _self:
+        from .. import inject
+
+        known = {t for t in inject.all_table_tags(repo)} | {t.strip() for t in inject.all_table_tags(repo)}
+    else:
+        known = {"cmap", "glyf", "head"}
+    for rel in sorted(repo.rels()):
+        if not _in_scope(rel, scope):
+            continue
+        m = repo.mod(rel)
+        total = 0
+        bad = []
+        for n in ast.walk(m.tree):
+            key = None
+            if isinstance(n, ast.Compare) and len(n.ops) == 1 and isinstance(n.ops[0], (ast.In, ast.NotIn)) and norm(n.comparators[0]) in _TTFONT_NAMES and isinstance(n.left, ast.Constant) and isinstance(n.left.value, str):
+                key = n.left.value
+            elif isinstance(n, ast.Subscript) and norm(n.value) in _TTFONT_NAMES and isinstance(n.slice, ast.Constant) and isinstance(n.slice.value, str):
+                key = n.slice.value
+            elif isinstance(n, ast.Call) and isinstance(n.func, ast.Attribute) and n.func.attr in ("get", "has_key", "isLoaded") and norm(n.func.value) in _TTFONT_NAMES and n.args and isinstance(n.args[0], ast.Constant) and isinstance(n.args[0].value, str):
+                key = n.args[0].value
+            if key is None:
+                continue
+            total += 1
+            if not (1 <= len(key) <= 4 or key == "GlyphOrder"):
+                bad.append(f"line {n.lineno}: {norm(n)[:60]}")
+            elif known and key != "GlyphOrder" and key.ljust(4) not in known and key not in known and key not in TAG_LIT_AUDIT:
+                bad.append(f"line {n.lineno}: {norm(n)[:60]} ('{key}' is not a table the library has a module for)")
+        if total:
+            ctx.ob(rule, f"{rel}:<module>", f"{total} literal TTFont keys are table tags", not bad, "; ".join(bad[:3]))
+
+
+NEW4 = [tag_literals]
+GENERIC.extend(NEW4)
+
+
+# ---------------------------------------------------------------------------
+# EARLY-NEG: a search loop that gives up at the first candidate that does not match
+# ---------------------------------------------------------------------------
+_POSITIVE["EARLY-NEG"] = '''
+def get_effective_value_pair(subtables, firstGlyph, secondGlyph):
+    for self in subtables:
+        if firstGlyph not in self.Coverage.glyphs:
+            continue
+        for rec in self.PairSet:
+            if rec.SecondGlyph == secondGlyph:
+                return rec
+        return None
+    return None
+'''
+EARLY_NEG_AUDIT = {
+    ("feaLib/parser.py", "Parser.find_previous"): "deliberate and commented: only comments may sit between the statement and the one looked for",
+}
+
+
+def early_negative(ctx, repo, scope=("",), rule="EARLY-NEG", _self=False):
+    ctx.rule(rule, "a function that ends with a search loop (a `return <found>` inside, `return None/False` or nothing after it) does not also return the negative result from inside the loop: that ends the search at the first candidate that fails, and later candidates (subtables, masters, records) are never looked at", floor=1)
+    if not _self:
+        _selfcheck(ctx, rule, early_negative)
+
+    def is_neg(v):
+        return v is None or (isinstance(v, ast.Constant) and v.value in (None, False))
+
+    for rel in sorted(repo.rels()):
+        if not _in_scope(rel, scope):
+            continue
+        m = repo.mod(rel)
+        total = 0
+        bad = []
+        for q, f in sorted(m.funcs.items()):
+            fn = f.node
+            if isinstance(fn, ast.Lambda):
+                continue
+            for i, st in enumerate(fn.body):
+                if not isinstance(st, (ast.For, ast.While)):
+                    continue
+                rest = fn.body[i + 1:]
+                if not (not rest or (len(rest) == 1 and isinstance(rest[0], ast.Return) and is_neg(rest[0].value))):
+                    continue
+                rets = [n for n in walk_no_nested(st) if isinstance(n, ast.Return)]
+                pos = [n for n in rets if not is_neg(n.value)]
+                neg = [n for n in rets if is_neg(n.value)]
+                if not pos:
+                    continue
+                total += 1
+                if neg and (rel, q.split("#")[0]) not in EARLY_NEG_AUDIT:
+                    bad.append(f"{q}: `return {norm(neg[0].value) if neg[0].value is not None else ''}` at line {neg[0].lineno} inside the search loop")
+        if total:
+            ctx.ob(rule, f"{rel}:<module>", f"{total} trailing search loops return their negative result only after the loop", not bad, "; ".join(bad[:3]))
+
+
+NEW5 = [early_negative]
+GENERIC.extend(NEW5)
